@@ -118,14 +118,24 @@ fn case_text(cx: &mut Ctx, i: u64, examples: &[(String, String)]) -> (String, &'
             // half of the bases in a random layout: tabs, CRLF, comments (also non-ASCII) in
             // front of and inside calls, so that span arithmetic meets multi-byte characters
             let style = if i % 2 == 0 { Style::plain() } else { Style::random(&mut rng) };
-            let text = match prepare(cx, g, &mut rng, &style) {
-                Ok(p) => p.text().to_string(),
-                Err(_) => "fn main() { }".to_string(),
+            let (text, prepared_again): (String, Result<Program, ()>) = match prepare(cx, g, &mut rng, &style) {
+                Ok(p) => (p.text().to_string(), Ok(p.prog)),
+                Err(_) => ("fn main() { }".to_string(), Err(())),
             };
             let base = if nesting_depth(&text) <= MAX_DEPTH { text } else { "fn main() { let x: u8 = 1; }".to_string() };
             if kind == 1 {
                 // the styled program itself: every stage behind the front end is reached
                 return (base, "program");
+            }
+            if kind == 2 && i % 20 < 10 {
+                // a near-miss edit of the AST (analysis errors, and accepted oddities that reach code generation)
+                if let Ok(p) = prepared_again {
+                    let (q, _) = crate::mutate_ast::mutate(&p, &mut rng);
+                    let t = render(&q, &style).text;
+                    if nesting_depth(&t) <= MAX_DEPTH {
+                        return (t, "program");
+                    }
+                }
             }
             (mutate_text(&base, &mut rng), "program")
         }
